@@ -521,6 +521,10 @@ def plan(tier):
 
 def run_shard(spec):
     acc = Acc()
+    # everything allocated so far (memoised tree lists, modules) is long-lived: keep it out of the
+    # collections that snapshot() forces, which then only look at what the runs allocate
+    gc.collect()
+    gc.freeze()
     if spec[0] == 'hist':
         from .c15 import run_histories
         run_histories(spec, acc, 'restore', 'history:state-not-')
